@@ -353,6 +353,8 @@ fn ptr32_pass(prop: &str, seed: u64, cases: u64, workers: u64, cap_s: u64) -> (J
         j.set("cases_run", J::u(0));
         return (j, 0);
     }
+    // the time cap counts from here: building the interpreted simulator is not charged to it
+    let t_workers = Instant::now();
     let w = workers.min(cases.max(1));
     let mut kids = Vec::new();
     for i in 0..w {
@@ -373,7 +375,7 @@ fn ptr32_pass(prop: &str, seed: u64, cases: u64, workers: u64, cap_s: u64) -> (J
             match k.try_wait() {
                 Ok(Some(_)) => break k.wait_with_output().ok(),
                 Ok(None) => {
-                    if t0.elapsed().as_secs() > cap_s {
+                    if t_workers.elapsed().as_secs() > cap_s {
                         let _ = k.kill();
                         break k.wait_with_output().ok();
                     }
@@ -882,7 +884,7 @@ fn check_main(
             .ok()
             .and_then(|s| s.parse().ok())
             .unwrap_or(if tier == "thorough" { 27 * 4 } else { 16 });
-        let (j, viol) = ptr32_pass(prop, seed, n, workers.max(1) as u64, if tier == "thorough" { 1500 } else { 200 });
+        let (j, viol) = ptr32_pass(prop, seed, n, workers.max(1) as u64, if tier == "thorough" { 900 } else { 90 });
         total_violations += viol;
         extra.set("pointer_width_32_pass", j);
     }
